@@ -32,6 +32,7 @@ class Cfg:
         self.field_types = {}                # (class name, field) -> sort descriptor
         self.lib_overrides = {}              # dotted name -> handler
         self.abstract_blocks = {}            # (qualname, 'if <test>') -> handler(ex, stmt, frame)
+        self.name_overrides = {}             # global names bound to boundary values (e.g. global_options)
         self.lib_prefix = {}                 # dotted-name prefix -> boundary handler
         self.inline_depth = 12
         self.merge_optional = False          # `X if c else None` -> Maybe(c, X) without path split
